@@ -86,6 +86,29 @@ func CaptureInstant(io8 *IOLog, base string, imgRoot string, n int) (*Instant, e
 	return inst, nil
 }
 
+// ReadLogical reads the logical bytes of an engine file (an open mmap file is
+// physically extended to a multiple of 512 MiB; only its written prefix is read).
+func ReadLogical(io8 *IOLog, path string) ([]byte, error) {
+	f, err := os.Open(path)
+	if err != nil {
+		return nil, err
+	}
+	defer f.Close()
+	fi, err := f.Stat()
+	if err != nil {
+		return nil, err
+	}
+	n := fi.Size()
+	if io8 != nil {
+		if fs, ok := io8.Get(path); ok && fs.Logical < n {
+			n = fs.Logical
+		}
+	}
+	b := make([]byte, n)
+	_, err = io.ReadFull(f, b)
+	return b, err
+}
+
 func copyPrefix(src, dst string, n int64) error {
 	in, err := os.Open(src)
 	if err != nil {
